@@ -175,9 +175,14 @@ def assemble(unit_dir, cfg, read=repo_read):
         else:
             close_impl()
             code = _strip_vis(text[it.attr_end:it.end])
+            for a_, b_ in ent.get("rewrite", {}).items():
+                if a_ not in code:
+                    raise Undecided("lost anchor: rewrite source %r not in %s" % (a_, key))
+                code = code.replace(a_, b_)
             pre = ent.get("prefix", "")
             body.append("// ---- extracted verbatim: %s\n%s%s\n\n" % (key, pre + ("\n" if pre else ""), code))
-            edits.append("extract %s: dropped attributes/doc comments/visibility%s" % (key, "; added " + pre if pre else ""))
+            edits.append("extract %s: dropped attributes/doc comments/visibility%s%s" % (key, "; added " + pre if pre else "",
+                                                                                          "; rewrote %s" % ent["rewrite"] if ent.get("rewrite") else ""))
     close_impl()
     unused = set(cons) - used
     if unused:
